@@ -8,7 +8,10 @@ from harness.c10 import RANGES
 
 PROPERTY = "C01"
 LEVEL = "model_checking"
-BOUNDS = {"hours_per_series": "N=2 (thorough 3)", "skeletons": "T1,T2,T3,T4,T5,T7,T8", "history_depth": "<=2 edits "
+BOUNDS = {"hours_per_series": "N=2 (thorough 3)", "skeletons": "T1,T2,T3,T4,T5,T7,T8", "inductive_invariant": "after every edit on skeletons without a job shared between usage patterns, the live "
+          "system has the same value-level dependency graph (ancestors/children by object name and attribute) as the fresh "
+          "build: a history of any length over the edit menu reduces to single steps from fresh-equivalent states",
+          "history_depth": "<=2 edits "
           "(every edit followed by its inverse; link edit followed by numeric edit; seeded sample of other pairs)",
           "edit_menu": "numeric assignment per class/parameter, starts replacement (values/length/start date), "
           "timezone, server_type, fixed_nb_of_instances set/unset, link re-pointing, list assignment and mutators, "
@@ -106,16 +109,63 @@ def check_reference(ctx, system, snap, which, label):
                 V.compare_phys(ctx, got[cat], exp[cat], f"{label}: {which}_total_{kind}[{cat}] = totals {'at creation' if which == 'initial' else 'just before the edit'}")
 
 
-def compare_live_fresh(ctx, live, spec, env, label):
+def graph_signature(objs, names):
+    """value-level dependency graph by (object name, attribute[, dict key]) — independent of ids and identities"""
+    from efootprint.abstract_modeling_classes.explainable_object_dict import ExplainableObjectDict
+    from efootprint.abstract_modeling_classes.explainable_object_base_class import ExplainableObject
+    names_of = {id(o): n for n, o in objs.items()}
+
+    def ref(x):
+        c = x.modeling_obj_container
+        if c is None:
+            return ("<detached>", x.label or "")
+        key = ""
+        cur = c.__dict__.get(x.attr_name_in_mod_obj_container)
+        if isinstance(cur, dict):
+            ks = [getattr(k, "name", str(k)) for k, e in cur.items() if e is x]
+            key = ks[0] if ks else "<not in dict>"
+        return (names_of.get(id(getattr(c, "_value", c)), c.name), x.attr_name_in_mod_obj_container, key)
+    sig = {}
+    for n in names:
+        o = objs.get(n)
+        if o is None:
+            continue
+        for attr, v in o.__dict__.items():
+            if attr.startswith("previous_") or attr.startswith("initial_"):
+                continue
+            entries = [(getattr(k, "name", str(k)), e) for k, e in v.items()] if isinstance(v, ExplainableObjectDict) else \
+                ([("", v)] if isinstance(v, ExplainableObject) else [])
+            for k, e in entries:
+                sig[(n, attr, k)] = (sorted(set(ref(a) for a in e.direct_ancestors_with_id)),
+                                     sorted(set(ref(c) for c in e.direct_children_with_id)))
+    return sig
+
+
+def compare_graphs(ctx, live, fresh, names, label):
+    """inductive invariant: the edited system has the same dependency graph as the freshly built one, so a history of
+    any length reduces to single steps from fresh states"""
+    a, b = graph_signature(live, names), graph_signature(fresh, names)
+    ctx.require(set(a) == set(b), f"{label}: same attached values as the fresh system", str(sorted(set(a) ^ set(b)))[:200])
+    for k in a:
+        if k in b:
+            ctx.require(a[k][0] == b[k][0], f"{label}: {k[0]}.{k[1]}{'[' + k[2] + ']' if k[2] else ''} has the ancestors of the fresh system",
+                        f"{a[k][0]} vs {b[k][0]}"[:300])
+            ctx.require(a[k][1] == b[k][1], f"{label}: {k[0]}.{k[1]}{'[' + k[2] + ']' if k[2] else ''} has the children of the fresh system",
+                        f"{a[k][1]} vs {b[k][1]}"[:300])
+
+
+def compare_live_fresh(ctx, live, spec, env, label, graph=False):
     fresh = M.build(spec, env)
     gt = gt_sets(spec)
     names = set(gt["patterns"] + gt["jobs"] + gt["servers"] + gt["storages"] + gt["networks"] + gt["steps"]
                 + gt["journeys"] + gt["devices"] + gt["countries"] + ["system"])
     V.compare_systems(ctx, live, fresh, label, names=names)
+    if graph:
+        compare_graphs(ctx, live, fresh, names, label + " [graph]")
     return fresh
 
 
-def h_script(ctx, skeleton, script, n=2, args=None, extra_sym=None):
+def h_script(ctx, skeleton, script, n=2, args=None, extra_sym=None, graph=False):
     spec = M.SKELETONS[skeleton](n, **(args or {}))
     sym = traffic_syms(spec)
     sym.update(collect_slots(spec, script))
@@ -134,7 +184,7 @@ def h_script(ctx, skeleton, script, n=2, args=None, extra_sym=None):
         spec, env = E.apply(live, spec, env, e)
         lab = f"after edit {i + 1} ({je['k']})"
         try:
-            compare_live_fresh(ctx, live, spec, env, lab)
+            compare_live_fresh(ctx, live, spec, env, lab, graph=graph)
         except ValueError as err:
             ctx.require(False, f"{lab}: the edited state can be built from scratch", str(err)[:200])
             raise
@@ -294,4 +344,8 @@ def plan(tier, seed):
         rnd.shuffle(pairs)
         p += [("script", dict(skeleton="T1", script=[a, b])) for a, b in pairs[:60]]
         p += [("script", dict(skeleton="T3", n=3, script=[e] + ([inv] if inv else []))) for e, inv in single_edits("T3")]
+    # inductive invariant (same dependency graph as the fresh system) wherever no job is shared between usage patterns
+    for item in p:
+        if item[1]["skeleton"] in ("T1", "T4", "T5", "T7", "T9"):
+            item[1]["graph"] = True
     return p
